@@ -61,6 +61,10 @@ def run(run):
         contracts.uninstall(cstate)
         shutil.rmtree(scratch, ignore_errors=True)
     run.count("contract_evaluations_resolve_runtime_value", cstate["evaluations"])
+    if run.tier == "thorough" and run.shard[0] == 0:
+        from vlib import suite
+
+        suite.run_suite_with_contracts(run, "resolution")
     run.floor("pipelines_run", 50)
     run.floor("contract_evaluations_resolve_runtime_value", 50)
     run.floor("failing_runs", 5)
